@@ -35,6 +35,7 @@ func c16NewClient() (*RemoteClient, *c16Server) {
 	c.requestTimeout.Store(200 * time.Millisecond)
 	c.messageTimeout.Store(200 * time.Millisecond)
 	c.handshakeComplete.Store(true)
+	c.accepted.Store(true) // an accepted connection
 	c.isReconnecting.Store(false)
 	s := &c16Server{c: c, ctx: context.Background(), interrupt: make(chan interface{})}
 	return c, s
